@@ -392,10 +392,19 @@ func (b *Built) resolver(defType string, fd *model.FieldDef) graphql.FieldResolv
 			inner := gqlerrors.NewErrorWithPath(r.ErrMsg, nil, "", nil, nil, []interface{}{"deep", 7, "boom"}, errors.New(r.ErrMsg))
 			inner.Locations = []location.SourceLocation{{Line: 977, Column: 11}}
 			return nil, gqlerrors.FormatError(inner)
+		case "err_located":
+			// an error the resolver located itself with the exported constructor, without nodes: it says nothing about
+			// where this field sits in this response
+			return nil, graphql.NewLocatedError(errors.New(r.ErrMsg), nil)
+		case "err_shared":
+			// one located error value returned for every failing field and every request (a sentinel)
+			return nil, sharedSentinel
 		case "valerr":
 			return materialize(r.Val), errors.New(r.ErrMsg)
 		case "panic_err":
 			panic(errors.New(r.ErrMsg))
+		case "panic_shared":
+			panic(sharedSentinel) // raised, not returned
 		case "panic_str":
 			panic(r.ErrMsg)
 		case "panic_int":
@@ -467,6 +476,9 @@ func (b *Built) isTypeOf(obj string) graphql.IsTypeOfFn {
 }
 
 // ErrClass maps a library error message to the reference's error classes.
+// sharedSentinel is one located error value shared by all schemas, sessions and requests of the process.
+var sharedSentinel = gqlerrors.NewError("E:shared", nil, "", nil, nil, errors.New("E:shared"))
+
 func ErrClass(msg string) string {
 	switch {
 	case msg == "E:serialize" || msg == "runtime error: hash of unhashable type ref.LeafPanic":
